@@ -10,7 +10,7 @@ RULE = ("real binary `new --vanity-prefix P`: (a) single-threaded (-j 0) under t
         "with/without vanity password / account index / hd path, lengths 12/15/24; (b) multi-threaded (-j 1,2,16 and default) with real entropy, prefixes of 1..3 digits, repeated "
         "to vary interleavings: the printed phrase must parse, have L words, and `address` with the same selector must start with the prefix (case-insensitive); "
         "non-hex / malformed prefixes must be refused; non-trivial = distinct (prefix, selector, threads, run); the schedule quantifier is only sampled on the real binary")
-EXHAUSTIVE_SWEEPS = {"quick": ["all 16 hex digits x {lower, upper} as 1-digit prefixes (model-compared)"], "thorough": ["all 16 hex digits x {lower, upper} as 1-digit prefixes (model-compared)"]}
+EXHAUSTIVE_SWEEPS = {"quick": ["all 16 hex digits x {lower, upper} as 1-digit prefixes (model-compared)", "every printable ASCII character x 5 positions of the prefix text (acceptance only)"], "thorough": ["all 16 hex digits x {lower, upper} as 1-digit prefixes (model-compared)"]}
 ASSUMPTIONS = ["thread interleavings of the real process are sampled, not enumerated; the model's search is the sequential one"]
 
 
@@ -38,6 +38,14 @@ def gen(rng, tier):
     for sel in ["idx:" + hx("2147483648"), "idx:" + hx("4294967296"), "path:" + hx("m/x"), "both:%s:%s" % (hx("1"), hx("m/1"))]:
         for t in (0, 2):
             cases.append(Case("cli.new_vanity %s %s - %s %s" % (hx("12"), hx("0x1"), sel, stream(rng, 3, 16)), tags=("model", "bad-selector"), runner="cli", meta={"threads": t, "timeout": 30}))
+    # acceptance of the prefix text alone (no search): every printable ASCII character in the first and the
+    # second position of a byte pair and as the odd nibble, plus a few non-ASCII ones
+    chars = [chr(c) for c in range(0x20, 0x7f)] + ["é", "٣", "Ａ", "\t"]
+    for ch in chars:
+        for pat in ("0x%s1", "0x1%s", "0x%s", "0xab%sc", "0xab%s"):
+            cases.append(Case("cli.prefix_parse " + hx(pat % ch), tags=("prefix-parse",), runner="cli", meta={}, nontrivial=True))
+    for t in ["", "0", "x", "0x", "0X1", "00x1", "0x0x1", " 0x1", "0x 1", "0x+1", "0x-1", "0x1+", "0x+a1", "0xab+c", "1", "0x" + "ab" * 20, "0x" + "ab" * 21, "0x" + "a" * 41, "0x" + "F" * 40]:
+        cases.append(Case("cli.prefix_parse " + hx(t), tags=("prefix-parse",), runner="cli", meta={}, nontrivial=True))
     cases.append(Case("cli.new_vanity %s %s - default %s" % (hx("13"), hx("0x1"), stream(rng, 3, 20)), tags=("model", "bad-length"), runner="cli", meta={"threads": 0}))
     return cases
 
